@@ -353,7 +353,7 @@ Proof.
       { cbn [process_card]. apply le9_seq; [apply le9_gd | apply pj_card_label|].
         apply le9_seq; [apply le9_gd | apply pj_with_sub, pj_card|].
         apply le9_seq; [apply le9_gd | apply pj_push_sub|].
-        apply (le9_if_else FT (process_card c2) _ (process_card c3) _); [apply le9_refl | apply pj_card | apply le9_refl]. }
+        apply (le9_if_else FT (process_card c2) (gd FT (process_card c2)) (process_card c3) (gd FT (process_card c3))); [apply le9_refl | apply pj_card | apply le9_refl]. }
       apply emitsL_seq; [apply emitsL_nop, keepL_card_label|].
       apply emitsL_seq; [apply emitsL_with_sub, emitsL_expr, He|].
       apply emitsL_seq; [apply emitsL_nop, keepL_push_sub|].
@@ -402,3 +402,74 @@ Proof.
 Qed.
 
 End Cards.
+
+(* ------------------------------------------------------------------ the parameters become locals *)
+Lemma add_locals_L names : forall L s s', ctxL L s -> add_locals names s = ROk tt s' ->
+  ctxL (rev names ++ L) s' /\ cs_ids s' = cs_ids s /\ cs_names s' = cs_names s /\ cs_code s' = cs_code s /\
+  cs_pc s' = cs_pc s /\ cs_jump s' = cs_jump s.
+Proof.
+  induction names as [|n r IH]; intros L s s' Hc E; cbn [add_locals] in E.
+  - injection E as <-. cbn [rev app]. split; [exact Hc | repeat split].
+  - apply bind_ok in E. destruct E as (i & s1 & Ea & E).
+    destruct Hc as ((Hl & Hd) & Hu & Hp).
+    unfold add_local, bind, validate_var_name in Ea. destruct (is_empty n); [discriminate Ea|]. cbn [ret] in Ea.
+    unfold add_local_unchecked in Ea. rewrite Hl in Ea. cbn [hd] in Ea.
+    destruct (Nat.leb locals_cap (length (map mkl (rev L)))); [discriminate Ea|]. injection Ea as <- <-.
+    match type of E with add_locals r ?st = _ => assert (Hc1 : ctxL (n :: L) st) end.
+    { split; [split|split].
+      - cbn [cs_locals set_scopes map_hd]. rewrite Hd. cbn [rev]. rewrite map_app. reflexivity.
+      - exact Hd.
+      - exact Hu.
+      - exact Hp. }
+    destruct (IH _ _ _ Hc1 E) as (A & B). split.
+    + cbn [rev]. rewrite <- app_assoc. exact A.
+    + exact B.
+Qed.
+
+Lemma pj_process_cards cards : forall ic, pj (process_cards cards ic).
+Proof.
+  induction cards as [|c r IH]; intros ic; cbn [process_cards]; [apply pj_ret|].
+  apply pj_seq; [apply pj_pop_sub|]. apply pj_seq; [apply pj_push_sub|]. apply pj_seq; [apply pj_card | apply IH].
+Qed.
+
+(* ------------------------------------------------------------------ the IR stream of the user functions *)
+Definition fir9 (i : nat) (n : N) (name : str) (f : function) : function_ir :=
+  {| fi_index := i; fi_name := name; fi_args := f_args f; fi_cards := f_cards f; fi_ns := [];
+     fi_imports := []; fi_handle := handle_from_u64 n |}.
+Fixpoint firs9 (i : nat) (n : N) (fs : list (str * function)) : list function_ir :=
+  match fs with
+  | [] => []
+  | (name, f) :: r => fir9 i n name f :: firs9 (S i) (n + 1) r
+  end.
+
+Lemma flatten_functions9 fs : forall i n out out' n',
+  flatten_functions fs i [] [] out n = inr (out', n') ->
+  out' = rev (firs9 i n fs) ++ out /\ n' = n + N.of_nat (length fs).
+Proof.
+  induction fs as [|[name f] r IH]; intros i n out out' n' H; cbn [flatten_functions] in H.
+  - injection H as <- <-. cbn [firs9 rev app length]. split; [reflexivity | lia].
+  - destruct (negb (is_name_valid name)); [discriminate H|].
+    destruct (IH _ _ _ _ _ H) as [-> ->]. cbn [firs9 rev length]. rewrite <- app_assoc. cbn [app].
+    split; [reflexivity | lia].
+Qed.
+
+Lemma swap0_0 {A} (l : list A) : swap0 l 0 = l.
+Proof. destruct l as [|x r]; reflexivity. Qed.
+
+Lemma ir_stream9 f0 others fs :
+  into_ir_stream (Module [] ((s_main, f0) :: others) []) 64 = inr fs ->
+  exists std, fs = firs9 0 0 ((s_main, f0) :: others) ++ std.
+Proof.
+  unfold into_ir_stream. cbn [app]. destruct (ensure_invariants _); [discriminate|].
+  cbn [find_index fst]. change (str_eqb s_main s_main) with true. cbv iota.
+  cbn [flatten_module length execute_imports].
+  change (64 <=? N.of_nat 0) with false. cbv iota.
+  destruct (flatten_functions _ 0 [] [] [] 0) as [e|[out1 n1]] eqn:Ef; [discriminate|].
+  destruct (flatten_functions9 _ _ _ _ _ _ Ef) as [-> _].
+  destruct (flatten_module std_module 64 _ _ n1) as [e|[out' n']] eqn:Em; [discriminate|].
+  destruct (ResolveTree.flatten_module_spec _ _ _ _ _ _ _ Em) as (irs & -> & _ & _).
+  intros H. injection H as <-. exists irs.
+  rewrite swap0_0, app_nil_r, rev_app_distr, (rev_involutive irs). f_equal.
+  first [ exact (rev_involutive (firs9 0 0 ((s_main, f0) :: others)))
+        | symmetry; exact (rev_involutive (firs9 0 0 ((s_main, f0) :: others))) ].
+Qed.
